@@ -28,9 +28,18 @@ func (t *Target) AccessDeniedHTTP(r *http.Request) bool {
 		return false
 	}
 
+	// a zone-scoped address ("fe80::1%eth0") is matched without its zone
+	if n := strings.IndexByte(host, '%'); n >= 0 {
+		host = host[:n]
+	}
+
 	ip := net.ParseIP(host)
 	if ip == nil {
 		log.Printf("[WARN] failed to parse remote address %s", host)
+		// an unknown peer cannot be on an allow list
+		if _, ok := t.accessRules[ipAllowTag]; ok {
+			return true
+		}
 	}
 
 	// check remote source and return if denied
